@@ -44,6 +44,7 @@ def predicates(ctx, chain, label, seed, workers):
     owner = {}                 # stream id -> job key that legitimately owns it
     nstreams = 0
     rep0 = {"history": label, "params": getattr(chain[-1], "params", None), "ctxseed": ctx.seed}
+    dropped_before = False     # a recorded job was NOT re-issued in an earlier segment (fewer workers / steps left)
     for seg, sim in enumerate(chain):
         main_ids = set()
         for (_tag, d, _held) in sim.snaps:
@@ -53,6 +54,7 @@ def predicates(ctx, chain, label, seed, workers):
         for (k, j, ens, rgen, rgeneng, pn) in js:
             by_job.setdefault(k, []).append((j, ens, rgen, rgeneng, pn))
         n_re = 0
+        drops_here = False
         if seg > 0:
             n_rec = sum(1 for line in sim.lines if line.startswith("locked0 "))
             n_init = 0     # preps of the initiation loop (before the first loop()): only these can be re-issues
@@ -61,6 +63,7 @@ def predicates(ctx, chain, label, seed, workers):
                     break
                 n_init += line.startswith("prep ")
             n_re = min(n_rec, n_init)
+            drops_here = n_rec > n_re
         for k in sorted(by_job):
             ents = sorted(by_job[k])
             key = tuple((e, pn) for (_j, e, _r, _re, pn) in ents)
@@ -82,7 +85,8 @@ def predicates(ctx, chain, label, seed, workers):
                     if sid in main_ids:
                         ctx.fail("C07:job-shares-scheduler-stream", f"{kind} stream {sid} is the scheduler's own", rep)
                     if sid in owner and owner[sid] != (key, ordinal):
-                        sig = ("C07:restart-chain:ordinal-reused-after-reissue" if seg > 1
+                        sig = ("C07:restart-chain:ordinal-reused-after-dropped-record" if seg > 1 and dropped_before
+                               else "C07:restart-chain:ordinal-reused-after-reissue" if seg > 1
                                else "C07:restart:multiworker-stream-collision" if seg > 0 and workers > 1
                                else "C07:restart:stream-reused-after-restart" if seg > 0 else "C07:stream-shared")
                         ctx.fail(sig, f"{kind} stream {sid} of job {key} (segment {seg}) already belongs to job {owner[sid][0]} "
@@ -91,6 +95,8 @@ def predicates(ctx, chain, label, seed, workers):
                     if sid != want:
                         if seg > 0 and sid.split(":")[0] != str(seed):
                             sig = "C07:restart:entropy-not-seed"
+                        elif seg > 1 and dropped_before:
+                            sig = "C07:restart-chain:ordinal-reused-after-dropped-record"
                         elif seg > 1:
                             sig = "C07:restart-chain:ordinal-reused-after-reissue"
                         elif seg > 0:
@@ -115,17 +121,20 @@ def predicates(ctx, chain, label, seed, workers):
                     del ord_of[key]
         if sim.error is not None:
             ctx.fail("C07:sampler-raised", f"{type(sim.error).__name__}: {sim.error}", rep0)
+        dropped_before = dropped_before or drops_here
     return nstreams
 
 
 def run_chain(ctx, n_ens, segments, steps, seed, rng, wf=False, acc_p=0.7):
     """A chain of scheduler-shaped segments with PER-SEGMENT settings (what repex_tie.run_history keeps fixed):
-    segments = [{"workers": w, "stop": step or None, "order": "random"|"newest"|"oldest", "screen": 0|1|3}, ...].
+    segments = [{"workers": w, "stop": step or None, "order": "random"|"newest"|"oldest", "screen": 0|1|3,
+                 "steps": total steps from this segment on (optional)}, ...].
     Mirrors repex_tie._run_segment op by op (same protocol lines for the model)."""
     import copy
     import os
     sims, image, weights = [], None, None
     for spec in segments:
+        steps = spec.get("steps", steps)        # a restart may come with another total number of steps
         sim = T.Sim(ctx, n_ens, spec["workers"], steps, seed=seed, wf=wf, rng=rng,
                     cstep=0 if image is None else image["cstep"], image=image, screen=spec.get("screen", 0))
         sim.image, sim.rich_init = None, False
@@ -243,6 +252,20 @@ def chain_plans(rng, quick):
                                   dict(workers=w, stop=b, order="newest", screen=0),
                                   dict(workers=w + (1 if w + 1 < n_ens else 0), stop=c, order="oldest", screen=3),
                                   dict(workers=1, stop=None, order="random", screen=1)], steps, seed, bool(seed % 2)))
+        # records DROPPED at a non-last restart: fewer workers than recorded jobs, and fewer steps left than
+        # recorded jobs; the restarts after that must still continue the ordinals (17a0342)
+        for n_ens, w in ((5, 3), (5, 4)) if quick else ((4, 3), (5, 3), (5, 4), (6, 4)):
+            a = rng.randint(3, 5)
+            b = a + rng.randint(3, 4)
+            plans.append((n_ens, [dict(workers=w, stop=a, order="random", screen=0),
+                                  dict(workers=1, stop=b, order="random", screen=1),
+                                  dict(workers=2, stop=b + 3, order="newest", screen=0),
+                                  dict(workers=w, stop=None, order="random", screen=3)], 16 + 2 * n_ens, seed, False))
+        # 3 records, restarted with 2 steps left (initiate() starts 2 jobs, one record dropped), then extended
+        plans.append((5, [dict(workers=4, stop=6, order="oldest", screen=0),
+                          dict(workers=4, stop=7, order="newest", screen=1, steps=8),
+                          dict(workers=2, stop=12, order="random", screen=0, steps=20),
+                          dict(workers=3, stop=None, order="random", screen=0)], 9, seed, False))
         # boundaries: steps == workers, steps < workers, and a LAST restart whose remaining steps equal /
         # fall below the number of recorded jobs (initiate() then starts fewer jobs than workers)
         plans.append((4, [dict(workers=3, stop=None, order="newest", screen=1)], 3, seed, False))
